@@ -141,8 +141,11 @@ impl Transformation<String> {
     use Transformation as T;
     Ok(match self {
       T::Replace(r) => T::Replace(Replace {
+        // check the regex here so that a bad one is a load error, not a panic on the first match
+        replace: Regex::new(&r.replace)
+          .map(|_| r.replace.clone())
+          .map_err(|e| TransformError::InvalidRegex(r.replace.clone(), e.to_string()))?,
         source: parse_meta_var(&r.source, lang)?,
-        replace: r.replace.clone(),
         by: r.by.clone(),
       }),
       T::Substring(s) => T::Substring(Substring {
